@@ -80,7 +80,8 @@ def default_valgen(rng, d):
         return G.rand_value(rng, d.typ)[1]
     if d.is_list:
         op = '+=' if rng.random() < 0.3 else '='
-        return '%s %s {%s}' % (d.name, op, ', '.join(one() for _ in range(rng.randint(0, 3))))
+        n = rng.randint(0, 3) if rng.random() < 0.96 else rng.choice([16, 17, 18, 33, 65, 130])      # (also across array-growth and line-wrap steps)
+        return '%s %s {%s}' % (d.name, op, ', '.join(one() for _ in range(n)))
     return '%s = %s' % (d.name, one())
 
 
